@@ -72,7 +72,13 @@ def pipeline_instance():
         init = np.transpose(start[field, np.arange(F)], (1, 0, 2)).copy()        # (F, K, T)
         Yt = np.transpose(Y, (0, 2, 1))                           # (F, T, D)
         trainer = CACGMMTrainer() if inp['model'] == 'cacgmm' else CWMMTrainer()
-        post = trainer.fit_predict(Yt, initialization=init, iterations=10)        # (F, K, T)
+        # the recording level is arbitrary (the spatial models see directions only): the observation handed to the model is
+        # rescaled by a random overall gain; posteriors come from fit_predict or from fit followed by predict
+        level = 10.0 ** rng.uniform(-4, 4)
+        if inp['seed'] % 2:
+            post = trainer.fit_predict(Yt * level, initialization=init, iterations=10)        # (F, K, T)
+        else:
+            post = trainer.fit(Yt * level, initialization=init, iterations=10).predict(Yt * level)
         shapes = {'posterior': post.shape}
         masks = np.transpose(post, (1, 0, 2))                     # (K, F, T)
         aligned = dhtv(masks)
@@ -81,7 +87,11 @@ def pipeline_instance():
         aligned = aligned[mapping_global]
         shapes['aligned'] = aligned.shape
         acc = float(np.mean(np.argmax(aligned, axis=0) == np.argmax(truth, axis=0)))
-        psd = bf.get_power_spectral_density_matrix(Y, np.transpose(aligned, (1, 0, 2)))         # (F, K, D, D)
+        if inp['seed'] % 3 == 0:
+            # masks in the (K, F, T) layout of the aligners, source axis first
+            psd = np.moveaxis(bf.get_power_spectral_density_matrix(Y, aligned, source_dim=0), 0, 1)       # (K, F, D, D) -> (F, K, D, D)
+        else:
+            psd = bf.get_power_spectral_density_matrix(Y, np.transpose(aligned, (1, 0, 2)))         # (F, K, D, D)
         shapes['psd'] = psd.shape
         sirs = {}
         for name in ('mvdr_souden', 'mvdr_souden+ban', 'gev', 'gev+ban', 'rank1_pca+mvdr_souden', 'rank1_gev+mvdr_souden', 'rank1_pca+gev',
